@@ -41,4 +41,20 @@ CHECKS = {
                             "newer_announcement_after_registration"],
         "assumptions": COMMON_ASSUMPTIONS,
     },
+    "C10": {
+        "pkg": "pkg/secretstore",
+        "test": "TestVerifC10",
+        "level": "fault_enumeration",
+        "quick": {"seconds": 30, "checks_per_proc": 40},
+        "thorough": {"seconds": 480, "checks_per_proc": 300},
+        "rule": "one case = one seeded send/announce/register/open/named-key workload (window 1..4, batched or unbatched "
+                "datastore writes, contact or multi-member group) for which EVERY datastore mutation index of the sender's "
+                "and of the receiver's disk is taken as a crash point (restart on the first k mutations, batches atomic) and "
+                "the four recovery clauses are evaluated; a sample of crash points also continues the remaining workload. "
+                "non-trivial = at least one crash point fell strictly inside an operation; distinct = distinct hash of the "
+                "workload trace (operation kinds and mutation ranges). faults_fired counts crash points.",
+        "required_probes": ["crash_inside_open", "crash_inside_register", "crash_inside_seal", "crash_inside_ann",
+                            "continuation_checked"],
+        "assumptions": COMMON_ASSUMPTIONS + ["durability unit = one datastore mutation that returned (weshnet never calls Sync); batches are atomic"],
+    },
 }
